@@ -16,9 +16,30 @@ REJECT = ('TranslationError', 'TypeError', 'NotImplementedError', 'ExprEvalError
 class Program(object):
     """a query program: generator-expression source + caller scope specification
     scope: {name: ('int'|'str'|'bool', concrete_default)}; methods: list of (method name, args source) applied to the Query"""
-    def __init__(self, src, scope=None, form='string', note=''):
+    def __init__(self, src, scope=None, form='string', note='', chain=None):
         self.src, self.scope, self.form, self.note = src, scope or {}, form, note
-    def __repr__(self): return 'Program(%r, %r, %s)' % (self.src, self.scope, self.form)
+        # chain: dict(filters=[lambda source...], order=[(key expr source, desc)], distinct=None|True|False,
+        #             final=('list',)|('slice', a, b)|('aggr', NAME)|('first',)|('exists',)|('get',)|('page', p, s)|('limit', l, o))
+        self.chain = chain
+    def __repr__(self): return 'Program(%r, %r, %s, %r)' % (self.src, self.scope, self.form, self.chain)
+    def describe(self):
+        if not self.chain: return self.src
+        c = self.chain
+        t = 'select%s' % self.src
+        for f in c.get('filters', ()): t += '.filter(%r)' % f
+        if c.get('order'): t += '.order_by(lambda: (%s))' % ', '.join(('desc(%s)' % k) if d else k for k, d in c['order'])
+        if c.get('distinct') is True: t += '.distinct()'
+        if c.get('distinct') is False: t += '.without_distinct()'
+        f = c.get('final', ('list',))
+        def sh(x): return '' if x is None else str(x)
+        if f[0] == 'list': t += '[:]'
+        elif f[0] == 'slice': t += '[%s:%s]' % (sh(f[1]), sh(f[2]))
+        elif f[0] == 'aggr': t += '.%s()' % f[1].lower()
+        elif f[0] == 'page': t += '.page(%s, %s)' % (f[1], f[2])
+        elif f[0] == 'limit': t += '.limit(%s, offset=%s)' % (f[1], f[2])
+        else: t += '.%s()' % f[0]
+        if c.get('order_numbers'): t = t.replace('select' + self.src, 'select%s.order_by(%s)' % (self.src, ', '.join(map(str, c['order_numbers']))), 1)
+        return t
 
 
 def sym_scope(scope):
@@ -45,17 +66,36 @@ def build_query(db, prog):
     for fn in ('count', 'sum', 'min', 'max', 'avg', 'exists', 'select', 'coalesce', 'concat', 'between', 'distinct', 'desc', 'len', 'abs', 'group_concat'):
         g[fn] = getattr(core, fn, None) or __builtins__[fn] if isinstance(__builtins__, dict) else getattr(core, fn, None) or getattr(__builtins__, fn)
     if prog.form == 'string':
-        return core.select(prog.src, g, dict(scope))
-    if prog.form == 'generator':
+        q = core.select(prog.src, g, dict(scope))
+    elif prog.form == 'generator':
         gen = eval(prog.src, g, dict(scope))
-        return core.select(gen)
-    raise ValueError(prog.form)
+        q = core.select(gen)
+    else: raise ValueError(prog.form)
+    c = prog.chain
+    if c:
+        for f in c.get('filters', ()):
+            q = q._process_lambda(f, g, dict(scope)) if False else q.filter(f, g, dict(scope))
+        if c.get('order'):
+            var = loop_var(prog.src)
+            keys = ', '.join(('desc(%s)' % k) if d else k for k, d in c['order'])
+            # a lambda without arguments refers to the loop variables by name (works for projections too)
+            q = q.order_by('lambda: (%s)' % keys if len(c['order']) > 1 else 'lambda: %s' % keys, g, dict(scope))
+        if c.get('order_numbers'):
+            q = q.order_by(*c['order_numbers'])
+        if c.get('distinct') is True: q = q.distinct()
+        if c.get('distinct') is False: q = q.without_distinct()
+    return q
 
 
-def real_sql(db, q, limit=None, offset=None):
+def loop_var(src):
+    t = ast.parse(src, mode='eval').body
+    return t.generators[0].target.id
+
+
+def real_sql(db, q, limit=None, offset=None, aggr=None):
     """SQL text + parameter layout from the real translator and the real builder of the bound provider"""
     translator = q._translator
-    sql_ast, attr_offsets = translator.construct_sql_ast(limit, offset, q._distinct, None, None, None, q._for_update, q._nowait, q._skip_locked)
+    sql_ast, attr_offsets = translator.construct_sql_ast(limit, offset, q._distinct, aggr, None, None, q._for_update, q._nowait, q._skip_locked)
     provider = db.provider
     builder = provider.sqlbuilder_cls(provider, sql_ast)
     params = [x for x in builder.result if hasattr(x, 'paramkey')]
@@ -189,10 +229,12 @@ def model_dump(S, enc, m):
             if symdb.mtrue(m, g):
                 out.append(tuple(symdb.model_value(m, v) for v in vals))
         return out
-    return {'tables': db, 'scope': scope, 'sql_rows_predicted': rows(enc['sql_rows']), 'python_rows': rows(enc['py_rows'])}
+    cols = [c[2] if c[0] == 'col' else None for c, alias in enc['tree'][1]['cols']]
+    return {'tables': db, 'scope': scope, 'sql_rows_predicted': rows(enc['sql_rows']), 'python_rows': rows(enc['py_rows']),
+            'colnames': cols if enc['entity_result'] and all(cols) else None}
 
 
-def decide(db, S, prog, dialect, timeout_ms=10000, extra_assumptions=()):
+def decide(db, S, prog, dialect, timeout_ms=10000, extra_assumptions=(), exclude_regions=()):
     t0 = time.time()
     try:
         enc = encode(db, S, prog, dialect)
@@ -208,6 +250,8 @@ def decide(db, S, prog, dialect, timeout_ms=10000, extra_assumptions=()):
         raise
     s = z3.Solver(); s.set('timeout', timeout_ms)
     s.add(*enc['assumptions']); s.add(*extra_assumptions)
+    for k in exclude_regions:
+        if k in enc['regions']: s.add(z3.Not(z3.Or(enc['regions'][k])))
     r = s.check()
     if r != z3.sat:
         return dict(verdict='unknown', detail='assumptions alone are %s' % r, sql=enc['sql'], time_s=time.time() - t0)
@@ -247,7 +291,7 @@ def populate(db, tables):
         cur.execute('PRAGMA foreign_keys = ON')
 
 
-def run_real(db, prog, scope_vals):
+def run_real(db, prog, scope_vals, colnames=None):
     """execute the program with the real pony on the real database -> list of row tuples (entities -> all column values)"""
     from pony.orm import db_session
     p2 = Program(prog.src, {k: (prog.scope[k][0], scope_vals.get(k, prog.scope[k][1])) for k in prog.scope}, prog.form)
@@ -255,12 +299,21 @@ def run_real(db, prog, scope_vals):
     with db_session:
         q = build_query(db, p2)
         for item in q[:] if hasattr(q, '__getitem__') else q:
-            out.append(real_row(item))
+            out.append(real_row(item, colnames))
     return out
 
 
-def real_row(item):
+def real_row(item, colnames=None):
     from pony.orm.core import Entity
+    if isinstance(item, Entity) and colnames:
+        # one value per column of the SELECT list (columns of classes the object does not belong to are None)
+        bycol = {}
+        for attr in item._attrs_:
+            if attr.is_collection or not attr.columns: continue
+            v = attr.__get__(item)
+            if isinstance(v, Entity): v = v.get_pk()
+            bycol[attr.columns[0].lower()] = v
+        return tuple(bycol.get(c.lower()) for c in colnames)
     if isinstance(item, Entity):
         vals = []
         for attr in item._attrs_:
@@ -280,3 +333,272 @@ def norm_rows(rows):
         if isinstance(v, float) and v == int(v): return int(v)
         return v
     return sorted({tuple(nv(v) for v in r) for r in rows}, key=repr)
+
+
+# ---------------------------------------------------------------------------------------------------------------------
+# query-method chains (C24): list semantics of the ordered result
+def _pos_terms(rows, keys_of):
+    """position of every row in the list sorted by its keys: number of selected rows that sort strictly before it"""
+    pos = []
+    for i in range(len(rows)):
+        before = []
+        for j in range(len(rows)):
+            if i == j: continue
+            before.append(z3.If(z3.And(rows[j]['g'], _before(keys_of(j), keys_of(i))), z3.IntVal(1), z3.IntVal(0)))
+        pos.append(z3.Sum(before) if before else z3.IntVal(0))
+    return pos
+
+
+def _before(ka, kb):
+    res = FALSE
+    for (a, desc), (b, _) in reversed(list(zip(ka, kb))):
+        from .values import unify
+        a, b = unify(a, b)
+        if a.sort == 'bool': a, b = to_int(a), to_int(b)
+        lt = z3.And(a.t != b.t, a.t <= b.t) if a.sort == 'str' else a.t < b.t
+        gt = z3.And(a.t != b.t, z3.Not(lt))
+        if desc: lt, gt = gt, lt
+        res = z3.If(lt, TRUE, z3.If(gt, FALSE, res))
+    return res
+
+
+def encode_chain(db, S, prog, dialect):
+    """like encode(), for a program with a method chain; returns the two results as lists of (guard, [position] + values)"""
+    from pony.orm import db_session
+    c = prog.chain or {}
+    final = c.get('final', ('list',))
+    limit = offset = aggr = None
+    window = None                       # python slice applied to the ordered list
+    if final[0] == 'slice':
+        a, b = final[1], final[2]
+        window = (a or 0, b)
+    elif final[0] == 'limit':
+        l, o = final[1], final[2]
+        window = (o or 0, None if l is None else (o or 0) + l)
+    elif final[0] == 'page':
+        pnum, size = final[1], final[2]
+        window = ((pnum - 1) * size, pnum * size)
+    elif final[0] == 'first': window = (0, 1)
+    elif final[0] == 'exists': window = (0, 1)
+    elif final[0] == 'get': window = (0, 2)
+    with db_session:
+        q = build_query(db, prog)
+        if final[0] == 'aggr':
+            sql, params, translator = real_sql(db, q, None, None, final[1])
+        else:
+            # run the REAL method up to the point where it fetches: intercept Query._actual_fetch / QueryResult
+            lim_off = capture_fetch(q, final)
+            if final[0] == 'first':
+                q2, (limit, offset) = lim_off
+                sql, params, translator = real_sql(db, q2, limit, offset)
+                q = q2
+            else:
+                limit, offset = lim_off
+                sql, params, translator = real_sql(db, q, limit, offset)
+        qvars = dict(q._vars)
+        distinct_flag = q._distinct
+        tr_distinct = translator.distinct
+    paramstyle = db.provider.paramstyle
+    tree = sqlparse.parse(sql, dialect, paramstyle)
+    exists_only = False
+    if final[0] == 'exists':
+        # exists() fetches q[:1]; which row comes back is irrelevant, only whether one does: the LIMIT 1 is checked here and
+        # the statement is evaluated without it
+        if limit != 1 or offset not in (None, 0): raise Unmodelled('exists() fetched limit=%r offset=%r' % (limit, offset))
+        if tree[1]['limit'] != ('lit', 1): raise Unmodelled('exists(): unexpected LIMIT %r' % (tree[1]['limit'],))
+        tree[1]['limit'] = None; tree[1]['offset'] = None
+        exists_only = True; window = None
+    scope_syms, cons = sym_scope(prog.scope)
+    penv = pysem.PEnv(S, scope_syms, dialect)
+    class _Q: pass
+    qq = _Q(); qq._vars = qvars
+    pvals, pcons = param_values(params, translator, qq, penv, paramstyle)
+    ctx = sqlsem.Ctx(S.tables, pvals, dialect)
+    res = sqlsem.eval_select(tree, sqlsem.Env(ctx))
+    src_tree = ast.parse(prog.src, mode='eval').body
+    prows = pysem.eval_query(src_tree, penv, with_env=True)
+    var = loop_var(prog.src)
+    rows = []
+    for g, vals, e in prows:
+        gg = g
+        for f in c.get('filters', ()):
+            lam = ast.parse(f, mode='eval').body
+            arg = lam.args.args[0].arg
+            if not (len(vals) == 1 and isinstance(vals[0], pysem.ERef)): raise Unmodelled('filter() on a non-entity result')
+            e2 = e.child(**{arg: vals[0]})
+            with e2.under(gg):
+                gg = z3.And(gg, z3.And(z3.Not(pysem.truth(e2, pysem.ev(lam.body, e2)).n), pysem.truth(e2, pysem.ev(lam.body, e2)).t))
+        keys = []
+        for k, desc in c.get('order', ()):
+            with e.under(gg): kv = pysem.as_data(pysem.ev(ast.parse(k, mode='eval').body, e))
+            if not isinstance(kv, SV): raise Unmodelled('order key is not a scalar')
+            keys.append((kv, desc))
+        rows.append({'g': gg, 'vals': vals, 'keys': keys})
+    flat = flatten_python([(r['g'], r['vals']) for r in rows], tree[1]['cols'] if final[0] != 'aggr' else [(None, None)] * len(rows[0]['vals']) if rows else [], S) \
+        if final[0] != 'aggr' else [(r['g'], [v if isinstance(v, SV) else pysem.pk_of(penv, v) for v in r['vals']]) for r in rows]
+    for r, (g, fv) in zip(rows, flat): r['flat'] = fv
+    for n_, keys in enumerate(c.get('order_numbers', ()) and [c['order_numbers']] or []):
+        for r in rows:
+            r['keys'] = [(r['flat'][abs(k) - 1], k < 0) for k in keys]
+    assumptions = list(S.constraints) + cons + pcons
+    entity_result = bool(rows) and len(rows[0]['vals']) == 1 and isinstance(rows[0]['vals'][0], pysem.ERef)
+    # the full result R as pony documents it: entity results and (by default) projections are duplicate-free
+    set_semantics = entity_result or (distinct_flag is not False and (distinct_flag is True or tr_distinct))
+    if final[0] == 'first' and not c.get('order') and not c.get('order_numbers'):
+        # first() on an unordered query orders by the result columns itself
+        for r in rows: r['keys'] = [(v, False) for v in r['flat']]
+    if set_semantics and not entity_result:
+        dups = [z3.And(rows[i]['g'], rows[j]['g'], rows_equal(rows[j]['flat'], rows[i]['flat'])) for i in range(len(rows)) for j in range(i)]
+        if dups:
+            if c.get('order') or c.get('order_numbers') or final[0] == 'first':
+                penv.region('order-by-drops-distinct', z3.Or(dups))
+            if final[0] == 'aggr' and final[1] in ('SUM', 'AVG'):
+                penv.region('sum-avg-ignore-default-distinct', z3.Or(dups))
+        for i, r in enumerate(rows):
+            dup = z3.Or([z3.And(rows[j]['g'], rows_equal(rows[j]['flat'], r['flat'])) for j in range(i)]) if i else FALSE
+            r['g'] = z3.And(r['g'], z3.Not(dup))
+    out = dict(sql=sql, tree=tree, scope_syms=scope_syms, regions=penv.regions, result=res, entity_result=entity_result, qvars=qvars)
+    if final[0] == 'aggr':
+        name = final[1]
+        bag = pysem.Bag([(r['g'], r['flat'][0] if len(r['flat']) == 1 or name != 'COUNT' else r['flat'][0]) for r in rows])
+        if name == 'COUNT':
+            val = SV('int', z3.Sum([z3.If(r['g'], z3.IntVal(1), z3.IntVal(0)) for r in rows]) if rows else z3.IntVal(0))
+        else:
+            val = pysem.aggregate(penv, {'SUM': 'sum', 'MIN': 'min', 'MAX': 'max', 'AVG': 'avg'}[name], bag)
+        py_rows = [(TRUE, [val])]
+        sql_rows = [(g, vals) for g, vals, _ in res.rows]
+        if name == 'SUM':
+            # Query.sum() turns a NULL total into 0 in Python after fetching
+            sql_rows = [(g, [SV(v.sort, z3.If(v.n, (z3.IntVal(0) if v.sort == 'int' else z3.RealVal(0)), v.t)) if v.sort in ('int', 'real') else v for v in vals]) for g, vals in sql_rows]
+    else:
+        have_keys = bool(rows) and bool(rows[0].get('keys'))
+        if window is not None and not have_keys and (window != (0, None)):
+            raise Unmodelled('slice of an unordered query (result not determined)')
+        if have_keys:
+            # total order on the selected rows (ties make the order implementation-defined) and keys present
+            for i in range(len(rows)):
+                assumptions.append(z3.Implies(rows[i]['g'], z3.And([z3.Not(k.n) for k, _ in rows[i]['keys']]) if rows[i]['keys'] else TRUE))
+                for j in range(i):
+                    assumptions.append(z3.Implies(z3.And(rows[i]['g'], rows[j]['g']),
+                                                  z3.Or(_before(rows[i]['keys'], rows[j]['keys']), _before(rows[j]['keys'], rows[i]['keys']))))
+            pos = _pos_terms(rows, lambda i: rows[i]['keys'])
+        else:
+            pos = [z3.IntVal(0)] * len(rows)
+        py_rows = []
+        for r, p_ in zip(rows, pos):
+            g = r['g']
+            if window is not None:
+                a, b = window
+                g = z3.And(g, p_ >= a)
+                if b is not None: g = z3.And(g, p_ < b)
+                p_ = p_ - a
+            py_rows.append((g, ([SV('int', p_)] if have_keys else []) + r['flat']))
+        sql_rows = []
+        for g, vals, p_ in res.rows:
+            if have_keys:
+                if p_ is None: raise Unmodelled('SQL result carries no positions although the query is ordered')
+                sql_rows.append((g, [SV('int', p_)] + vals))
+            else:
+                sql_rows.append((g, vals))
+    if exists_only:
+        sql_rows = [(z3.Or([g for g, _ in sql_rows]) if sql_rows else FALSE, [])]
+        py_rows = [(z3.Or([g for g, _ in py_rows]) if py_rows else FALSE, [])]
+    if penv._undefined: assumptions.append(z3.Not(z3.Or(penv._undefined)))
+    out.update(sql_rows=[(g, v, None) for g, v in sql_rows], py_rows=py_rows, assumptions=assumptions,
+               sql_errors=[cnd for tag, cnd in ctx.side if tag == 'sql_error'], set_semantics=set_semantics)
+    return out
+
+
+def capture_fetch(q, final):
+    """run the real Query method on the real Query object with its fetching step intercepted: what (limit, offset) does it ask for?"""
+    from pony.orm import core
+    captured = []
+    class Stop(Exception): pass
+    orig = core.Query._actual_fetch
+    def fake(query, limit=None, offset=None):
+        captured.append((query, limit, offset)); raise Stop()
+    core.Query._actual_fetch = fake
+    try:
+        try:
+            if final[0] == 'list': r = q[:]
+            elif final[0] == 'slice': r = q[final[1]:final[2]]
+            elif final[0] == 'limit': r = q.limit(final[1], offset=final[2])
+            elif final[0] == 'page': r = q.page(final[1], final[2])
+            elif final[0] == 'first': r = q.first()
+            elif final[0] == 'exists': r = q.exists()
+            elif final[0] == 'get': r = q.get()
+            else: raise ValueError(final)
+            if hasattr(r, '_get_items'): r._get_items()
+            elif hasattr(r, '__iter__'): list(r)
+        except Stop:
+            pass
+    finally:
+        core.Query._actual_fetch = orig
+    if not captured: raise Unmodelled('the method did not fetch')
+    query, limit, offset = captured[0]
+    if final[0] == 'first': return query, (limit, offset)
+    return limit, offset
+
+
+def decide_chain(db, S, prog, dialect, timeout_ms=10000, exclude_regions=()):
+    t0 = time.time()
+    try:
+        enc = encode_chain(db, S, prog, dialect)
+    except Unmodelled as e:
+        return dict(verdict='unmodelled', detail=str(e), time_s=time.time() - t0)
+    except sqlparse.SQLSyntaxError as e:
+        return dict(verdict='unmodelled', detail='SQL text not parsed: %s' % e, time_s=time.time() - t0)
+    except Exception as e:
+        if type(e).__name__ in REJECT:
+            return dict(verdict='rejected', detail='%s: %s' % (type(e).__name__, str(e)[:120]), time_s=time.time() - t0)
+        raise
+    s = z3.Solver(); s.set('timeout', timeout_ms)
+    s.add(*enc['assumptions'])
+    for k in exclude_regions:
+        if k in enc['regions']: s.add(z3.Not(z3.Or(enc['regions'][k])))
+    r = s.check()
+    if r != z3.sat:
+        return dict(verdict='unknown', detail='assumptions alone are %s' % r, sql=enc['sql'], time_s=time.time() - t0)
+    ob = obligation(enc['sql_rows'], enc['py_rows'], False)
+    bad = z3.Not(ob)
+    if enc['sql_errors']: bad = z3.Or(bad, z3.Or(enc['sql_errors']))
+    s.push(); s.add(bad)
+    r = s.check()
+    out = dict(sql=enc['sql'], enc=enc, solver=s, time_s=time.time() - t0)
+    if r == z3.unsat: out['verdict'] = 'unsat'
+    elif r == z3.sat:
+        out['verdict'] = 'sat'; out['z3model'] = s.model(); out['model'] = model_dump(S, enc, s.model())
+    else:
+        out['verdict'] = 'unknown'; out['detail'] = 'solver: %s' % r
+    out['time_s'] = time.time() - t0
+    return out
+
+
+def run_real_chain(db, prog, scope_vals):
+    """execute the chained program for real -> list of rows ([position] + values for ordered results)"""
+    from pony.orm import db_session
+    p2 = Program(prog.src, {k: (prog.scope[k][0], scope_vals.get(k, prog.scope[k][1])) for k in prog.scope}, prog.form, chain=prog.chain)
+    c = prog.chain or {}
+    final = c.get('final', ('list',))
+    ordered = bool(c.get('order') or c.get('order_numbers')) or final[0] == 'first'
+    with db_session:
+        q = build_query(db, p2)
+        if final[0] == 'aggr':
+            v = getattr(q, final[1].lower())()
+            return [(v,)]
+        if final[0] == 'list': items = q[:]
+        elif final[0] == 'slice': items = q[final[1]:final[2]]
+        elif final[0] == 'limit': items = list(q.limit(final[1], offset=final[2]))
+        elif final[0] == 'page': items = list(q.page(final[1], final[2]))
+        elif final[0] == 'first':
+            x = q.first(); items = [] if x is None else [x]
+        elif final[0] == 'exists': return [('exists', q.exists())]
+        elif final[0] == 'get':
+            try:
+                x = q.get(); items = [] if x is None else [x]
+            except Exception as ex: return [('raised', type(ex).__name__)]
+        out = []
+        for i, item in enumerate(items):
+            row = real_row(item)
+            out.append(((i,) + row) if ordered else row)
+        return out
